@@ -118,3 +118,35 @@ def ctx_with_id(base_ctx, runner_id):
     from pynenc.runner.runner_context import RunnerContext
 
     return RunnerContext(runner_cls="VerifRunner", runner_id=runner_id, pid=1, hostname="h", thread_id=1)
+
+
+def reset_uuid(start: int = 1) -> None:
+    global _uuid_counter
+    _uuid_counter = itertools.count(start)
+    install_det_uuid()
+
+
+def new_invocations(app, task, n: int, args_list=None):
+    """Create and register n invocations of `task` (untraced), returning their ids."""
+    from pynenc.arguments import Arguments
+    from pynenc.call import Call
+    from pynenc.invocation.dist_invocation import DistributedInvocation
+
+    with NoTracing():
+        invs = []
+        for i in range(n):
+            kw = args_list[i] if args_list else {}
+            invs.append(DistributedInvocation.isolated(Call(task, Arguments(kw))))
+        app.orchestrator.register_new_invocations(invs)
+        return invs
+
+
+def pick(x, lo: int, hi: int) -> int:
+    """Fork a bounded symbolic int into a concrete one by bisection (one path per value, log depth)."""
+    while lo < hi:
+        mid = (lo + hi) // 2
+        if x <= mid:
+            hi = mid
+        else:
+            lo = mid + 1
+    return lo
